@@ -105,3 +105,60 @@ example : (IdxKey.txSender (List.replicate 20 1) (indexer.txHeightAndIndexKey 3 
   simp [IdxKey.WF, indexer.txHeightAndIndexKey, indexer.txHeightPrefix, joinLenPrefix, formatUint64]
 
 end Canopy.C19Idx
+
+/-!
+## pool ids: a chain id and a pool kind never collide with another (chain id, kind)
+
+Pool store keys are `KeyForPool(chainId + addend kind)`. The addends and the chain-id bound enforced by
+`checkChainId` are regenerated from `fsm/key.go`'s var block; the id composition is injective on valid
+chain ids exactly because each kind's id range `[1 + addend, MaxChainId + addend]` is disjoint from the
+others — a change of `MaxChainId` or of an addend that makes two ranges touch breaks this theorem.
+-/
+namespace Canopy.C19Pool
+open Canopy Canopy.Gen
+
+inductive PoolKind | committee | holding | liquidity | escrow
+deriving DecidableEq, Repr
+
+def addend : PoolKind → Nat
+  | .committee => 0
+  | .holding => fsm.HoldingPoolAddend
+  | .liquidity => fsm.LiquidityPoolAddend
+  | .escrow => fsm.EscrowPoolAddend
+
+def poolId (k : PoolKind) (chain : Nat) : Nat := chain + addend k
+
+/-- chain ids accepted by `checkChainId`: not the reserved id 0, not above `MaxChainId` -/
+def ValidChain (c : Nat) : Prop := 1 ≤ c ∧ c ≤ fsm.MaxChainId
+
+/-- **pool_id_injective**: the pool id determines the pool kind and the chain -/
+theorem pool_id_injective (k₁ k₂ : PoolKind) (c₁ c₂ : Nat) (h₁ : ValidChain c₁) (h₂ : ValidChain c₂)
+    (h : poolId k₁ c₁ = poolId k₂ c₂) : k₁ = k₂ ∧ c₁ = c₂ := by
+  unfold ValidChain fsm.MaxChainId at h₁ h₂
+  cases k₁ <;> cases k₂ <;>
+    simp only [poolId, addend, fsm.HoldingPoolAddend, fsm.LiquidityPoolAddend, fsm.EscrowPoolAddend] at h <;>
+    first | (refine ⟨rfl, ?_⟩; omega) | omega
+
+/-- no chain-scoped pool id reaches the DAO pool id `2*MaxUint16+1` -/
+theorem pool_id_below_dao (k : PoolKind) (c : Nat) (h : ValidChain c) : poolId k c < 2 * 65535 + 1 := by
+  unfold ValidChain fsm.MaxChainId at h
+  cases k <;> simp only [poolId, addend, fsm.HoldingPoolAddend, fsm.LiquidityPoolAddend, fsm.EscrowPoolAddend] <;> omega
+
+/-- hence the store keys of two different (kind, chain) pools differ -/
+theorem pool_key_injective (k₁ k₂ : PoolKind) (c₁ c₂ : Nat) (h₁ : ValidChain c₁) (h₂ : ValidChain c₂)
+    (h : fsm.KeyForPool (UInt64.ofNat (poolId k₁ c₁)) = fsm.KeyForPool (UInt64.ofNat (poolId k₂ c₂))) :
+    k₁ = k₂ ∧ c₁ = c₂ := by
+  have hb₁ := pool_id_below_dao k₁ c₁ h₁
+  have hb₂ := pool_id_below_dao k₂ c₂ h₂
+  simp only [fsm.KeyForPool, fsm.poolPrefix, joinLenPrefix, List.cons.injEq, true_and,
+    List.append_cancel_left_eq, List.append_cancel_right_eq, and_true] at h
+  have hu := formatUint64_injective _ _ h.2
+  have : poolId k₁ c₁ = poolId k₂ c₂ := by
+    have := congrArg UInt64.toNat hu
+    simp only [UInt64.toNat_ofNat'] at this
+    omega
+  exact pool_id_injective k₁ k₂ c₁ c₂ h₁ h₂ this
+
+example : ValidChain 1 ∧ ValidChain 16383 := by unfold ValidChain fsm.MaxChainId; omega
+
+end Canopy.C19Pool
